@@ -33,6 +33,7 @@ USE_PATTERNS = [
      [("model", "PHSP", []), ("alias", "MA")]],
     [[("model", "SVS_CP", ["beta", "dm", "-beta", "-dm", "dmx", "-betax"])], [("model", "SVS_CP", ["dm"])]],
     [[], [("alias", "MA"), ("alias", "MB")], [("alias", "MB")]],
+    [[("model", "LbAmpGen", ["DtoKpipipi_v1", "inf", "-nan", "dm", "Infinity"]), ("alias", "MA")]],
 ]
 MOTHERS = ["B0", "D+", "K*0"]
 R_EXPAND = [len(DEF_VARIANTS), 4, len(ALIAS_VARIANTS), 3, len(USE_PATTERNS), 3]
@@ -131,6 +132,7 @@ def body_expand(sel: int) -> bool:
 OPTION_PATTERNS = [
     ["dm"], ["-dm"], ["dm", "-dm", "beta"], ["-beta", "1.5", "dm"], ["other", "-other", "dm"], ["2.5e3", "-0.5"], [],
     ["dm", "dm", "-beta", "beta", "-dmx", "3"],
+    ["inf", "nan", "-inf", "Infinity", "dm", "e5x"],          # words float() would accept are still words
 ]
 N_VISITOR = len(OPTION_PATTERNS) * 3
 
